@@ -29,6 +29,13 @@ def toHex (bs : List Nat) : String :=
 def words (line : String) : List String :=
   (line.trimAscii.toString.splitOn " ").filter (· ≠ "")
 
+/-- Split a token list on a separator token. -/
+def splitTok (sep : String) (ws : List String) : List (List String) :=
+  let rec go : List String → List String → List (List String) → List (List String)
+    | [], cur, acc => (cur.reverse :: acc).reverse
+    | w :: r, cur, acc => if w = sep then go r [] (cur.reverse :: acc) else go r (w :: cur) acc
+  go ws [] []
+
 /-- Generic line loop for a (possibly stateful) driver: one operation per line
     in, one canonical line out; empty lines are echoed as empty lines. -/
 partial def runLoop {σ : Type} (init : σ) (step : σ → List String → σ × String) : IO Unit := do
